@@ -62,6 +62,17 @@ func (sc *scenario) fairEnv() {
 				gen--
 			}
 			want := vs.M{"ready": true, "observedGeneration": gen, "conditions": []interface{}{vs.M{"type": "Ready", "status": "True"}}}
+			if sc.sick > 0 && name == "p1-0" {
+				// one round in which the first child is unhealthy: its Ready condition is False; its controller may not report
+				// observedGeneration at all (1), report 0 (2) or report it properly (3)
+				want = vs.M{"ready": false, "conditions": []interface{}{vs.M{"type": "Ready", "status": "False"}}}
+				switch sc.sick {
+				case 2:
+					want["observedGeneration"] = int64(0)
+				case 3:
+					want["observedGeneration"] = gen
+				}
+			}
 			if st != nil && vs.MustJSON(st) == vs.MustJSON(want) {
 				continue
 			}
@@ -258,7 +269,7 @@ func rollingCfg(r *vs.Rand) scfg {
 		c = allChildKinds[1]
 	}
 	c.Method = r.Pick([]string{"RollingInPlace", "RollingRecreate"})
-	if c.HasStatus && r.Chance(50) {
+	if c.HasStatus && r.Chance(70) {
 		c.Checks = []vs.M{{"type": "Ready", "status": "True"}}
 	}
 	cfg.Children = []childSpec{c}
@@ -410,6 +421,12 @@ func runRollout(r *vs.Rand, i int, seed uint64, out *vs.Out, crash bool) {
 	if r.Chance(40) {
 		lagRound = changeAt + 1 + r.Intn(replicas+1)
 	}
+	sickRound, sickKind := -1, 0
+	if r.Chance(60) {
+		// after the first child has moved, while others are still waiting for their turn
+		sickRound = changeAt + 2 + r.Intn(replicas)
+		sickKind = 1 + r.Intn(3)
+	}
 	cutRound, cutK := -1, -1
 	faultRound, faultKind := -1, [2]string{}
 	if crash {
@@ -440,6 +457,10 @@ func runRollout(r *vs.Rand, i int, seed uint64, out *vs.Out, crash bool) {
 		// one round in which the children's own controllers lag: the status checks still pass (stale conditions),
 		// but status.observedGeneration is behind metadata.generation
 		sc.lag = k == lagRound
+		sc.sick = 0
+		if k == sickRound {
+			sc.sick = sickKind
+		}
 		if k == cutRound {
 			sc.w.sim.CutAfter = cutK
 		}
